@@ -77,8 +77,9 @@ def run_module(check: Check, module: str, functions: dict, *, pct: float, ppt: f
     tmp = tempfile.mkdtemp(prefix="ch_", dir=os.environ.get("TMPDIR", "/tmp"))
     jobs = []
     for fname, shards in functions.items():
-        for sh in shards:
-            for twin in ((False, True) if twins else (False,)):
+        for si, sh in enumerate(shards):
+            # one reachability twin per harness function (first shard): the shards differ only in the pinned value
+            for twin in ((False, True) if (twins and si == 0) else (False,)):
                 path = os.path.join(tmp, f"{module}_{fname}_{abs(hash(repr(sh))) % 10**9}_{'twin' if twin else 'main'}.py")
                 with open(path, "w") as f:
                     f.write(_materialise(src, sh, twin))
